@@ -27,7 +27,7 @@ from __future__ import annotations
 
 import urwid
 from urwid.canvas import CanvasCache, CompositeCanvas
-from urwid.str_util import calc_width
+from urwid.str_util import get_char_width
 
 LEAF_KINDS = ("edit", "icon", "button", "check", "text")
 
@@ -248,15 +248,28 @@ def desc_at(d, path):
     return d
 
 
-def tag_grid(canv):
-    """The canvas as a plain list of rows of display attributes, one per screen column."""
+def cell_grid(canv):
+    """The canvas as plain rows of cells (display attribute, character), one per screen column (the right
+    half of a double-width character is (attr, None))."""
     g = []
     for row in canv.content():
         line = []
         for attr, _cs, text in row:
-            line.extend([attr] * calc_width(text, 0, len(text)))
+            for ch in text.decode("utf-8") if isinstance(text, bytes) else text:
+                w = get_char_width(ch)
+                if w == 0 and line:
+                    line[-1] = (line[-1][0], (line[-1][1] or "") + ch)
+                    continue
+                line.append((attr, ch))
+                if w == 2:
+                    line.append((attr, None))
         g.append(line)
     return g
+
+
+def tag_grid(canv):
+    """The canvas as a plain list of rows of display attributes, one per screen column."""
+    return [[a for a, _ch in line] for line in cell_grid(canv)]
 
 
 def _tag_cells(grid, tag):
@@ -280,7 +293,8 @@ class Drawn:
             canv = tree.root.render(size, True)
             self.cols, self.rows = canv.cols(), canv.rows()
             self.cursor = canv.cursor
-            self.grid = tag_grid(canv)
+            self.cells = cell_grid(canv)
+            self.grid = [[a for a, _ch in line] for line in self.cells]
         except Exception as e:  # noqa: BLE001  (classified by the caller: in scope only at fitting sizes)
             self.error = f"{type(e).__name__}: {e}"
             return
@@ -321,7 +335,8 @@ class Drawn:
             if p == ():
                 self.rect[p] = (0, 0, self.cols, self.rows)
                 continue
-            ngrid = tag_grid(ncanv)
+            ncells = cell_grid(ncanv)
+            ngrid = [[a for a, _ch in line] for line in ncells]
             origins = set()
             for lp in tree.subtree_leaves(p):
                 lw = tree.nodes[lp]
@@ -340,6 +355,16 @@ class Drawn:
             (x0, y0), = origins
             if x0 < 0 or y0 < 0 or x0 + ncanv.cols() > self.cols or y0 + ncanv.rows() > self.rows:
                 self.unfit = f"node {p} extends beyond the drawn area"
+                return
+            # every character of the node's own canvas (borders, dividers, padding) is on the screen too
+            for j, line in enumerate(ncells):
+                for i, (_a, ch) in enumerate(line):
+                    if self.cells[y0 + j][x0 + i][1] != ch:
+                        self.unfit = f"node {p} is partly hidden: its cell ({i}, {j}) shows {ch!r}, the screen shows {self.cells[y0 + j][x0 + i][1]!r} there"
+                        return
+            par = self.rect.get(p[:-1])
+            if par is not None and not (par[0] <= x0 and par[1] <= y0 and x0 + ncanv.cols() <= par[0] + par[2] and y0 + ncanv.rows() <= par[1] + par[3]):
+                self.unfit = f"node {p} is not inside its parent's rectangle"
                 return
             self.rect[p] = (x0, y0, ncanv.cols(), ncanv.rows())
         self.unfit = self._stated_needs()
